@@ -359,6 +359,11 @@ def correspond(ctx):
         out['failing'] += r['failing']
         fd += [mt[i] for i in r['failing'][:2] if i < len(mt)]
     if fd: out['first_disagreement'] = fd[:3]
+    # minDist / curveDistance as REGENERATED from utils/curvedistance.py (Gen/MinDist.v: state-passing Fixpoint on fuel, the two property loops
+    # as folds, IndexError of the D table as an exception value), related to the hand model by Proofs/Bridge4.v
+    kernels.merge_cross_check(out, 'C20', ['curvedistance_minDist@2x2', 'curvedistance_minDist@2x3', 'curvedistance_minDist@2x4', 'curvedistance_minDist@3x2',
+        'curvedistance_minDist@3x3', 'curvedistance_minDist@3x4', 'curvedistance_minDist@4x2', 'curvedistance_minDist@4x3', 'curvedistance_minDist@4x4',
+        'curvedistance_curveDistance_Line_Line', 'curvedistance_curveDistance_Quad_Cubic', 'curvedistance_curveDistance_Cubic_Cubic'], ctx.n(8, 100), rng)
     return out
 
 
